@@ -36,9 +36,9 @@ TOKENS = {"none": None, "one": ["tok-1"], "several": ["tok-1", "tok-2", "tok 3"]
 @st.composite
 def request_st(draw, spec):
     nodes = fsgen.SKELETON + spec["nodes"]
-    k = draw(st.integers(0, 10))
+    k = draw(st.integers(0, 11))
     labels = []
-    if k == 10:
+    if k >= 10:
         k = 9
     elif k == 9:
         k = 8
@@ -62,7 +62,9 @@ def request_st(draw, spec):
     elif k == 9 and any(nd["t"] == "link" for nd in spec["nodes"]):
         # through a link (possibly to an outside directory) to a file that exists behind it
         lk = draw(st.sampled_from([nd for nd in spec["nodes"] if nd["t"] == "link"]))
-        inner = draw(st.sampled_from(["out.gmi", "secret.gmi", "two.gmi", "index.gmi", "dir/deep.gmi", "a.gmi", "new-behind-link.gmi"]))
+        behind = {"outside": ["out.gmi", "index.gmi", "dir/deep.gmi"], "outside/dir": ["deep.gmi"], "capsule-secret": ["secret.gmi"],
+                  "capsule2": ["two.gmi"]}.get(lk["to"], ["out.gmi", "secret.gmi", "two.gmi", "a.gmi"])
+        inner = draw(st.sampled_from(behind + ["new-behind-link.gmi"]))
         path = "/" + "/".join(lk["p"].split("/")[1:]) + "/" + inner
         labels += ["through-link", "aim-outside"]
     else:
@@ -82,10 +84,15 @@ def request_st(draw, spec):
 @st.composite
 def case_st(draw, with_fault=True):
     spec = draw(fsgen.tree_spec(max_nodes=8))
+    if draw(st.integers(0, 2)) == 0:
+        # a link inside the upload directory that leads to a directory outside of it
+        spec["nodes"].append({"p": ROOT + "/" + draw(st.sampled_from(["shared", "sub-link", "x-out"])), "t": "link",
+                              "to": draw(st.sampled_from(["outside", "capsule-secret", "capsule2", "outside/dir"])),
+                              "abs": draw(st.booleans())})
     cfg = {"tokens": draw(st.sampled_from(["none", "none", "one", "several", "blank", "blanks"])),
            "max_size": draw(st.sampled_from([64, None])),
            "types": draw(st.sampled_from([None, None, ["text/gemini", "text/plain"]])),
-           "delete": draw(st.booleans()),
+           "delete": draw(st.sampled_from([True, True, False])),
            "via": draw(st.sampled_from(["object", "config"]))}
     fault = None
     if with_fault and draw(st.integers(0, 2)) == 0:
